@@ -40,6 +40,7 @@ pub fn run_op(lhs: &str) -> String {
             "enc2" => ops2::op_enc2(args),
             "valid" => ops2::op_valid(args),
             "flip" => ops2::op_flip(args),
+            "flipx" => ops2::op_flipx(args),
             "hist" => ops3::op_hist(args),
             "serde" => ops3::op_serde(args),
             "fragdec" => ops4::op_fragdec(args),
